@@ -320,6 +320,18 @@ Example C03_ex_proven_allocation :
   (0, 3, Some 3, Some 1).
 Proof. vm_compute. reflexivity. Qed.
 
+(* a PROVEN allocation of 0 entitles to nothing (the Config limit, 1 here, does not step in), on the
+   vending and on the open-edition Merkle minter *)
+Example C03_ex_proven_zero_allocation :
+  (get (s_wl (run merkle_vr ex_s0 [mint_call 2000 11 (wv_merkle true) 60 true (Some 0) 1])) 11,
+   entitlement merkle_vr (wv_merkle true) true (Some 0),
+   o_entitlement (mkOV false true) (wv_merkle true) (Some 0),
+   is_ok (ostep (mkOV false true)
+            (o_init (mkOV false true) 10 None (Some 6) 2 (Some 30) 5000 (Some 9000) 100 0 100 None)
+            (mkEnv 2000 11 [mkCoin 0 60] 20) (mkOFP 50 0 1000 40 0 5000 10 100 604800 (Some 9))
+            (Some (wv_merkle true)) (EMint None true (Some 0)))) = (0, Some 0, Some 0, false).
+Proof. vm_compute. reflexivity. Qed.
+
 (* tiered: stage 2 is active, per-address limit 2, stage limit 3: buyers 11 and 12 get
    2 + 1, the counts land in the stage-2 map and total *)
 Example C03_ex_tiered_stage :
